@@ -42,6 +42,9 @@ func (pc *pooledConnectImpl) Recycle() {
 		pc.Close()
 	}
 	if pc.IsClosed() {
+		// writePacket may have dialled a new socket after "broken pipe" while leaving the connection
+		// flagged closed: close whatever socket is still there before giving the slot back
+		pc.directConnection.Close()
 		pc.pool.Put(nil)
 	} else {
 		// set before Put: after Put the connection may already belong to the next client
